@@ -13,6 +13,8 @@ NA = [
  ("C21", "algebraic laws over single values; no state, I/O, time or second party"),
  ("C22", "parse/format of single values; no state, I/O, time or second party"),
  ("C23", "parser totality over single strings; no state, I/O, time or second party"),
+ ("C28", "pure function of the message value: BackendMessage::encode has no state, stream position, schedule or fault in it, and the statement quantifies over message contents only; the session that would give it a history (Connection) is welded to tokio::net::TcpStream and cannot run inside a simulator here (no turmoil/madsim, real sockets are not allowed)"),
+ ("C29", "pure function of (user, stored secret, salt, response): PasswordStore verification has no history, schedule or fault in it; the handshake that draws the salt lives in Connection, which is welded to tokio::net::TcpStream and cannot run inside a simulator here"),
  ("C31", "single-process CLI file export/import quantified over inputs only; nothing to schedule or fault"),
 ]
 
@@ -69,6 +71,15 @@ CHECKS = {
  "C24": ("dbsim", "exploration", "deterministic simulation: every statement of seeded histories (incl. faulty and extreme-valued ones) under catch_unwind",
          "Panic monitor over all statements of the general history with extreme integer literals and arithmetic; harness build has overflow checks on, so unchecked arithmetic panics instead of wrapping.",
          "Stateful reading only; the space of all statements is not enumerated.", "6/C24"),
+ "C25": ("dbsim", "exploration", "deterministic simulation: seeded interleavings of writes and cached reads through the real signature/cache/table-extractor; every cache hit compared with direct execution",
+         "The real QuerySignature::from_sql, QueryResultCache and extract_tables_from_select are driven with the lookup/store/invalidate protocol of the repository's sqllogictest adapter over seeded histories; query texts vary literal case and inner white space, identifier case and layout, and reach tables through joins, subqueries, derived tables, CTEs, UNION, HAVING subqueries (and a view when the known finding's guard is off); each hit must equal what executing the text now returns.",
+         "Sampling. The protocol glue re-states a test-support file. Known finding C25-view-dependencies keeps views out of this workload.", "6/C25"),
+ "C26": ("dbsim", "exploration", "deterministic simulation: seeded GRANT/REVOKE/SET ROLE histories with security enabled; model of held privileges; every statement shape that touches a table executed under non-admin roles",
+         "Model = set of (role, table, privilege) implied by accepted GRANT/REVOKE. 26 statement shapes (scans, index scans, aggregates, joins, IN/NOT IN/EXISTS/scalar subqueries, derived tables, CTEs, UNION, a view, INSERT VALUES, INSERT..SELECT on both paths, UPDATE/DELETE with subqueries) run under the current role; a statement lacking a needed privilege must fail and leave both tables unchanged.",
+         "Sampling; one-sided as the property is stated (a refusal despite held privileges is counted, not reported). No PUBLIC grants, role membership or grant options.", "6/C26"),
+ "C27": ("netsim", "exploration", "deterministic simulation of the client byte stream: seeded frame sequences (well-formed and malformed) delivered in seeded fragments into the server's real decoder through the receive loop of connection.rs",
+         "The server's protocol module is compiled into the harness by path. Oracles per decoder call: no panic; well-formed frames decode to the message sent under every fragmentation; exactly the frame is consumed and following bytes stay untouched; a malformed frame with a usable length is never answered by consuming bytes beyond it; a completely delivered well-formed frame is never left waiting.",
+         "Sampling. Transport and receive loop are re-stated (Connection is welded to tokio::net::TcpStream); asking for more bytes on a negative/oversized length is accepted as the statement allows it.", "6/C27"),
  "C32": ("dbsim", "exploration", "deterministic simulation: views created inside seeded histories and kept while data changes; every outer query executed over the view, over the inlined derived table and over a CTE",
          "After every step each view is queried through seeded outer queries (projection, pushed-down filters, aggregates, GROUP BY, DISTINCT, join with a base table) in three renderings - FROM view, FROM (defining query) AS v, WITH w AS (defining query) - which must agree bit-exactly; equality after each later write is what 'a view reflects the current contents' means here.",
          "Sampling. Views expose two columns; definitions cover filtered projection, explicit column list, expression column, GROUP BY, two-table join, view over view, DISTINCT.", "6/C32"),
@@ -116,6 +127,8 @@ def main():
         "engines": [
             {"name": "filesim", "path": "/verif/sim/filesim", "serves_properties": ["C20"],
              "kind_free_text": "fault injector over persisted database images with subprocess workers (panic/abort/hang/allocation attribution), images generated by the dbsim history generator"},
+            {"name": "netsim", "path": "/verif/sim/netsim", "serves_properties": ["C27"],
+             "kind_free_text": "simulated byte-stream transport (seeded fragmentation) feeding the server's real frontend-message decoder, with an independent encoder as client"},
             {"name": "dbsim", "path": "/verif/sim/dbsim", "serves_properties": sorted(p for p in CHECKS if CHECKS[p][0] == "dbsim"),
              "kind_free_text": "single-process deterministic simulator over the real parser/catalog/storage/executor: seeded swarm configuration, seeded operation histories with faults inside statements, aborts and restarts; twin instances; per-step oracles; ddmin minimisation; explicit replay files"},
         ],
